@@ -66,6 +66,12 @@ def _int_bits(t):
 
 def _collect_hooks(P, st):
     def rd(it, p, n):
+        if isinstance(p, tuple) and p and p[0] == "ADDR" and isinstance(n, int) and 0 < n <= 8:
+            # the address of a scalar local (`append(buf, &byte, 1)`): its bytes in memory order
+            v = (p[3] if len(p) > 3 else it.cur_env).get(p[1], U)
+            if isinstance(v, int):
+                return [(v >> (8 * j)) & 0xFF for j in range(n)]
+            raise sem.Inconclusive("append of a scalar whose value is not known")
         if not isinstance(p, Ptr) or not isinstance(p.off, int) or not isinstance(n, int):
             raise sem.Inconclusive("append of an untracked range")
         return [it.byte_at(p.base, p.off + j) for j in range(n)]
@@ -124,7 +130,7 @@ def check_writer(ctx, fn, rule):
                     args.append(Ptr("obj", 0, 1))
                 else:
                     raise sem.Inconclusive("parameter %s of type %s is not bound by this rule" % (p["n"], t))
-            ret, ev, heap = sem.run(P, fn, args, heap0=heap0, hooks=_collect_hooks(P, st), single=True, max_forks=4, budget=20000,
+            ret, ev, heap = sem.run(P, fn, args, heap0=heap0, hooks=_collect_hooks(P, st), single=True, max_forks=4, budget=40000, inline_depth=6,
                                     on_start=lambda st=st: st.__setitem__("bytes", []))
             bs = list(st["bytes"])
             if outp is not None:
@@ -137,13 +143,18 @@ def check_writer(ctx, fn, rule):
             n += 1
             d = decode(bs)
             want = encode(v)
+            if v == 0 and (d is None or d[0] != 0 or len(bs) != 1):
+                raise sem.Inconclusive("the value 0 is not emitted as the single byte 00 (%s): parameter roles not established" % (bs[:4],))
             if bad is None and (d is None or d[0] != v or d[1] != len(bs)):
                 bad = "for %d (%#x) it emits %s; the definition reads that as %s - the value is spelled %s" % (
                     v, v, " ".join("%02x" % (b & 0xFF) if isinstance(b, int) else "??" for b in bs),
                     "an unterminated varint" if d is None else "%d in %d of the %d byte(s)" % (d[0], d[1], len(bs)),
                     " ".join("%02x" % b for b in want))
     except (sem.Inconclusive, KeyError) as ex:
-        ctx.inconclusive(rule, key, P.where(fn.body), what, "%s: %s" % (type(ex).__name__, ex))
+        # a routine this rule cannot drive (an object-style wrapper, another buffer API) is not judged; the instance
+        # floors of the properties see to it that not everything ends up here
+        ctx.count("varint_routines_not_driven", 1)
+        ctx.note("R38: %s not driven (%s)" % (fn.name, str(ex)[:120])) if hasattr(ctx, "note") else None
         return 0
     ctx.ob(rule, key, P.where(fn.body), what + " (%d values)" % n, bad is None, bad or "")
     return 1
@@ -188,7 +199,13 @@ def check_reader(ctx, fn, rule):
                         valslot = slot
                     args.append(Ptr(slot, 0, 8))
                 elif "*" not in t and _int_bits(t):
-                    args.append(len(enc))
+                    pn_ = p["n"].lower()
+                    if pn_ in ("pos", "offset", "start", "idx", "index", "position", "at", "from"):
+                        args.append(0)          # a starting position handed by value
+                    elif any(k in pn_ for k in ("size", "len", "count", "avail", "remaining", "end", "limit", "n")):
+                        args.append(len(enc))
+                    else:
+                        raise sem.Inconclusive("integer parameter %s has no role this rule knows" % p["n"])
                 elif "*" in t:
                     tn = t.replace("*", "").strip()
                     rec = P.records.get(tn) or P.records.get(tn[:-2] if tn.endswith("_t") else tn)
@@ -210,10 +227,14 @@ def check_reader(ctx, fn, rule):
                 else:
                     raise sem.Inconclusive("parameter %s of type %s is not bound by this rule" % (p["n"], t))
             ret, ev, heap = sem.run(P, fn, args, heap0=heap0, hooks={"set_error": lambda ev, a, it: ev.append("error") or 0},
-                                    single=True, max_forks=4, budget=20000)
+                                    single=True, max_forks=4, budget=40000, inline_depth=6)
             n += 1
             got = heap.get((valslot, 0)) if valslot else ret
             m = (1 << (val_bits if val_bits not in (31, 63) else val_bits + 1)) - 1
+            if v == 0 and (not isinstance(got, int) or (got & m) != 0):
+                # the single byte 00 is the one case every reader gets right: if this does not come back as 0 the
+                # parameters were not bound the way the function means them
+                raise sem.Inconclusive("the byte 00 does not read back as 0 (%r): parameter roles not established" % (got,))
             if bad is None and (not isinstance(got, int) or (got & m) != (v & m)):
                 bad = "for the bytes %s (= %d) it yields %r" % (" ".join("%02x" % b for b in enc[:used]), v, got)
             cons = None
@@ -227,7 +248,10 @@ def check_reader(ctx, fn, rule):
                 if isinstance(cons, int):
                     bad = "for the bytes %s (= %d) it consumes %d byte(s), the varint has %d" % (" ".join("%02x" % b for b in enc[:used]), v, cons, used)
     except (sem.Inconclusive, KeyError) as ex:
-        ctx.inconclusive(rule, key, P.where(fn.body), what, "%s: %s" % (type(ex).__name__, ex))
+        # a routine this rule cannot drive (an object-style wrapper, another buffer API) is not judged; the instance
+        # floors of the properties see to it that not everything ends up here
+        ctx.count("varint_routines_not_driven", 1)
+        ctx.note("R38: %s not driven (%s)" % (fn.name, str(ex)[:120])) if hasattr(ctx, "note") else None
         return 0
     ctx.ob(rule, key, P.where(fn.body), what + " (%d values)" % n, bad is None, bad or "")
     return 1
@@ -247,7 +271,7 @@ def check_binary_writer(ctx, fn, rule):
             _bind_object(P, _t(fn.params[0]).replace("*", "").strip(), "obj", heap0)
             mem = lambda base, off, size: ((off * 7 + 1) & 0xFF) if base == "payload" else None
             ret, ev, heap = sem.run(P, fn, [Ptr("obj", 0, 1), Ptr("payload", 0, 1), L], heap0=heap0, hooks=_collect_hooks(P, st), single=True,
-                                    max_forks=4, budget=400000, memory=mem, on_start=lambda st=st: st.__setitem__("bytes", []))
+                                    max_forks=4, budget=400000, memory=mem, inline_depth=6, on_start=lambda st=st: st.__setitem__("bytes", []))
             n += 1
             bs = st["bytes"]
             d = decode(bs)
@@ -260,7 +284,7 @@ def check_binary_writer(ctx, fn, rule):
                 if len(body) != L or any(b != ((j * 7 + 1) & 0xFF) for j, b in enumerate(body)):
                     bad = "for a payload of %d byte(s) the prefix is followed by %d byte(s)%s" % (L, len(body), "" if len(body) != L else " that are not the payload")
     except (sem.Inconclusive, KeyError) as ex:
-        ctx.inconclusive(rule, key, P.where(fn.body), what, "%s: %s" % (type(ex).__name__, ex))
+        ctx.count("varint_routines_not_driven", 1)
         return 0
     ctx.ob(rule, key, P.where(fn.body), what + " (%d lengths)" % n, bad is None, bad or "")
     return 1
